@@ -104,9 +104,14 @@ def replay_native(prop, spec, fn_key, entry, special):
         return {'confirmed': False, 'error': repr(ex)}
 
 
+def load_baseline():
+    p = os.path.join(HERE, 'pyvc_baseline.json')
+    return json.load(open(p)) if os.path.exists(p) else {}
+
+
 def check_property(prop, tier, seed):
     t0 = time.time()
-    spec = PROPS[prop]; findings = load_findings()
+    spec = PROPS[prop]; findings = load_findings(); baseline = load_baseline()
     lines = []; violations = []; known = {}; undecided = []; inconsistent = []
     # ------------------------------------------------------------------ deductive part
     from pyvc.run import verify
@@ -130,6 +135,14 @@ def check_property(prop, tier, seed):
             kf = match_finding(findings, prop, 'deductive', function=r['key'], obligation=f['name'])
             if kf: known.setdefault(kf['id'], kf); continue
             if f['status'] == 'undecided':
+                base = baseline.get(r['key'])
+                if base and base.get('digest') != r.get('digest') and base.get('status') == 'proved':
+                    # the function was proved on the baseline tree, its source has changed since, and this obligation is no longer discharged
+                    violations.append({'kind': 'deductive', 'function': r['key'], 'file': r.get('file'), 'qualname': r.get('qualname'),
+                                       'obligation': f['name'], 'line': f['line'], 'backend': f"{f.get('backend')} (not discharged: {f.get('reason', 'unknown')}; "
+                                       f"proved on the baseline source {base.get('digest')}, current source {r.get('digest')})", 'counter_model_entry': None,
+                                       'special': None, 'solver_output': f.get('reason', ''), 'native_replay': None, 'confirmed': False})
+                    continue
                 undecided.append(f"{r['key']} :: {f['name']} (line {f['line']}): {f.get('reason', 'unknown')}"); need_search.append(r['key']); continue
             # refuted: replay the counter-model on the real code
             rep = replay_native(prop, spec, r['key'], f.get('entry'), f.get('special')) if f.get('entry') else None
@@ -171,7 +184,7 @@ def check_property(prop, tier, seed):
         path = write_replay(prop, i, dict(v, property=prop, tier=tier, seed=seed))
         suffix = ''
         if v['kind'] == 'deductive':
-            what = f"obligation '{v['obligation']}' of {v['qualname']} ({v['file']}:{v['line']}) refuted by {v['backend']}"
+            what = f"obligation '{v['obligation']}' of {v['qualname']} ({v['file']}:{v['line']}) fails: {v['backend']}"
             if not v['confirmed'] and not v.get('bounded_witness'): suffix = ' no-failing-input-found'
         else: what = f"{v['check']}: {v['detail'][:160]} ({v['count']} failing inputs)"
         lines.append(f'# {what}')
@@ -239,9 +252,16 @@ def do_replay(path):
 def main():
     ap = argparse.ArgumentParser()
     ap.add_argument('prop', nargs='?'); ap.add_argument('--tier', default=os.environ.get('VERIF_TIER', 'quick'))
-    ap.add_argument('--replay'); ap.add_argument('--list', action='store_true')
+    ap.add_argument('--replay'); ap.add_argument('--list', action='store_true'); ap.add_argument('--rebaseline', action='store_true')
     a = ap.parse_args()
     if a.list: print('\n'.join(PROPS)); return 0
+    if a.rebaseline:
+        from pyvc.run import verify
+        jobs = sorted({j for sp in PROPS.values() for j in sp.get('pyvc', [])})
+        res = {r['key']: {'digest': r.get('digest'), 'status': r['status'], 'obligations': r['obligations'], 'file': r.get('file'), 'qualname': r.get('qualname')} for r in verify(jobs, NPROC)}
+        json.dump(res, open(os.path.join(HERE, 'pyvc_baseline.json'), 'w'), indent=1, sort_keys=True)
+        bad = [k for k, v in res.items() if v['status'] != 'proved']
+        print(f'baseline written: {len(res)} functions, not proved: {bad}'); return 1 if bad else 0
     if a.replay: return do_replay(a.replay)
     seed = int(os.environ.get('VERIF_SEED', '0'))
     return check_property(a.prop, a.tier if a.tier in ('quick', 'thorough') else 'quick', seed)
